@@ -865,7 +865,7 @@ def list_faults(members):
             out.append(("case-override", i))
             if main is None or pn.lower() != main.lower():
                 out.append(("unknown-ct", i))
-    for v in range(3):
+    for v in range(4):
         out.append(("extra", v))
     if sum(1 for n, _ in members if _SLIDE_RE.match(n)) >= 1:
         out.append(("rename-slides", "gaps"))
@@ -977,6 +977,8 @@ def apply_fault(members, fault):
                   [("ppt/slides/slide999.xml", b"<p:sld xmlns:p=\"%s\"/>" % NS_P.encode()),
                    ("ppt/slides/_rels/slide999.xml.rels", rels_xml([("rId1", RT_BASE + "slideLayout", "../slideLayouts/slideLayout1.xml", "Internal")]))],
                   [("junk/readme.txt", b"unreferenced"), ("ppt/_rels/ghost.xml.rels", rels_xml([("rId1", RT_BASE + "slide", "slides/slide1.xml", "Internal")]))]]
+        # explicit directory entries (zip -r, Archive Utility, java.util.zip write them): empty members whose names end in "/"
+        extras.append([(dname + "/", b"") for dname in dir_entries(members)])
         have = {n for n, _ in members}
         return members + [(n, b) for n, b in extras[fault[1]] if n not in have]
     if kind == "case-ext":
